@@ -13,7 +13,8 @@ RULE = ("Cases: 1-6 azimuths (incl. sets containing both 0 and 180 and, rarely, 
         "(equal or unequal counts), every window with a clear peak, and a history of 1-3 accept/reject states (per-azimuth "
         "masks with >= 1 accepted window per azimuth, set on both masks; optionally produced by frequency_domain_window_"
         "rejection) with all statistics queried after each state. Non-trivial = >= 2 azimuths with unequal accepted counts "
-        "whose per-azimuth mean fn differ by > 1e-3 (relative); distinct by SHA-1 of the case.")
+        "whose per-azimuth mean fn differ by > 1e-3 (relative); distinct by SHA-1 of the case."
+        ' Scale pass: 2-180 azimuths x up to 9000 windows (azimuths x windows^2 up to 4e8), 1-40 windows rejected on one azimuth.')
 ASSUMPTIONS = [
     "both accept masks carry the same selection (the states produced by the library's rejection functions)",
     "total number of accepted windows >= 2 (the 1 - sum(w^2) normalisation is otherwise 0/0)",
